@@ -557,7 +557,10 @@ SPECIAL = _special_chars()
 LINE_BOUNDARIES = [c for c in SPECIAL if len(('a' + c + 'b').splitlines()) > 1]
 # text that looks like (part of) a number or a JSON token - what a clean-up pass may take for one
 NUMLIKE = ['2.0', '0.0', '1.00', '7.0,', '5.0]', '3.0}', '4.0 ', '-1.0', '6.0:', '1e+16', '1.5', '.0', '.00,', '10', '1.0e5', '\u0663.0', '\uff13.0,', '"8.0', '\\9.0',
-           '0', '-0.0', 'null', 'true', '1.0"', '2.0\\']
+           '0', '-0.0', 'null', 'true', '1.0"', '2.0\\',
+           # JSON-token look-alikes in value position (a pass that rewrites tokens "outside strings" by context - R7C14-m1)
+           'NaN', 'Infinity', '-Infinity', ',NaN,', '[NaN]', ': NaN }', ':Infinity,', ',-Infinity]', '[ Infinity ]', 'nan', 'inf', ',null,', '[true]',
+           ':false}', ',]', ',}', ', ]', '{"a":1.0}', '[1.0,2.0]', '{"k": NaN}', '[NaN, Infinity]']
 
 
 def boundary_strings(c, frag):
